@@ -213,6 +213,13 @@ class Update(CfgBase):
         self.params = {"self": "ref:CFG", "edges": mk}
         super().__init__()
 
+    def bind(self, eng, args, kwargs, st):
+        a = super().bind(eng, args, kwargs, st)
+        if a["edges"].k in ("gen", "list", "tuple"):
+            s_ = eng.as_set(a["edges"], st)
+            a["edges"] = SV("set", s_.t, cls="Edge")
+        return a
+
     def pre(self, c, a):
         v = fresh("v", Val)
         return {"wf_cfg": wf_cfg(c, a.self.t),
